@@ -349,6 +349,8 @@ def run_transport(case: dict) -> Outcome:
                 rec["resume_count_at_return"] = tr.resume_count
                 if flavour == "stream":
                     rec["handed_at_return"] = tr.bytes_handed
+                else:
+                    rec["wire_len_at_return"] = len(tr.wire)
 
         def pending() -> list[dict]:
             return [r for r in senders if not r["task"].done() and not r["cancel"] and r["state"] == "running"]
@@ -424,6 +426,19 @@ def run_transport(case: dict) -> Outcome:
                             "backpressure",
                             f"{where}: stream sender #{j} returned although {missing} of its {entry['len']} bytes had not been handed to the kernel "
                             f"(get_write_buffer_size() == {rec['bufsize_at_return']} at return, connection lost: {tr.connection_lost_called})",
+                            sender=j,
+                            flavour=flavour,
+                        )
+                if flavour != "stream" and not entry["dropped"]:
+                    # datagrams leave the user-space queue in FIFO order: this sender's datagram has reached the kernel iff as
+                    # many datagrams were handed over as were accepted (not dropped) up to and including its own
+                    need = sum(1 for e in log[: entry["index"] + 1] if not e["dropped"])
+                    if rec["wire_len_at_return"] < need:
+                        raise Violation(
+                            "backpressure",
+                            f"{where}: datagram sender #{j} returned although its datagram was still queued in user space "
+                            f"(get_write_buffer_size() == {rec['bufsize_at_return']} at return, {need - rec['wire_len_at_return']} datagram(s) "
+                            f"not handed to the kernel, connection lost: {tr.connection_lost_called})",
                             sender=j,
                             flavour=flavour,
                         )
@@ -768,8 +783,8 @@ CHECK = Check(
         "from the real layer behind EXCLUDE_WRITELINES_STDLIB (counted as class excluded-writelines-stdlib; the committed replay with known_finding_probe re-observes it)",
         "with several concurrent senders 'its bytes have been handed to the OS' is judged per sender from the transport's write log "
         "(get_write_buffer_size()==0 at return is the single-sender special case and is what the real layer checks)",
-        "datagram transports keep asyncio's default 64 KiB high-water mark: a datagram sender is only required to stay parked while its own "
-        "sendto() left the protocol paused and no resume_writing()/connection_lost() happened since",
+        "datagram senders are judged like stream senders: when send()/send_to() returns, as many datagrams must have been handed to the "
+        "kernel as were accepted up to and including the sender's own (FIFO); datagrams dropped by a non-fatal socket error are not counted",
         "senders are not started after aclose() (write() after write_eof() is a caller error in asyncio); pause/resume notifications strictly "
         "alternate and stop after connection_lost, as _FlowControlMixin guarantees",
         "real layer: wall-clock watchdog 60 s; an expiry is recorded as inconclusive",
